@@ -1,7 +1,7 @@
 (* C18 — SQL store: record and outbox row commit together or not at all. Property theorems only.
    Model: coq/model/Sql.v — the statement sequence of sqlstore.Store inside one transaction over a committed database;
    MySQL is not modelled (the relational meaning of the SELECTs is that of the reference store). *)
-From WF Require Import model.Base model.Routing model.Stores model.Sql proofs.SqlProofs.
+From WF Require Import model.Base model.Routing model.Stores model.Sql model.SqlWhere proofs.SqlProofs proofs.SqlWhereProofs.
 
 (* a failure at ANY position (begin, select, insert/update, event encoding, outbox insert, commit) commits nothing and
    returns the error *)
@@ -27,3 +27,26 @@ Print Assumptions C18_store_refines.
 Theorem C18_placeholders : forall w, wh_placeholders w = wh_params w.
 Proof. exact where_placeholders_match. Qed.
 Print Assumptions C18_placeholders.
+
+(* the query side: the statement List builds with its whereBuilder — groups " ( f=? OR f=? ) " joined by " AND ", then
+   run_id is not null, order by created_at, limit ?, offset ? — read as SQL (OR weaker than AND, parentheses group,
+   placeholders bound in textual order, LIMIT after OFFSET) over the rows in creation order selects exactly the page
+   the reference List returns, for every workflow name (0 = empty), filter combination with non-empty value lists,
+   order, limit >= 0 (0 = the default 25) and offset >= 0 *)
+Theorem C18_list_statement_meaning : forall wf off lim desc f rows, sfilter_ok f -> 0 <= off -> 0 <= lim ->
+  sql_select (list_stmt wf off lim desc f) rows =
+  Some (page off lim (let m := filter (smatches wf f) rows in if desc then rev m else m)).
+Proof. exact list_stmt_meaning. Qed.
+Print Assumptions C18_list_statement_meaning.
+
+(* the parentheses carry that meaning: the same conditions joined without them select a row of another workflow *)
+Theorem C18_grouping_matters :
+  let cs := [(FWf, [1]); (FStatus, [1; 2])] in
+  let val := fun f => match f with FWf => 2 | FStatus => 1 | _ => 0 end in
+  sql_cond val (fun _ => true) (flat_stmt_cond cs) (flat_map snd cs) = Some (false, []) /\
+  sql_cond val (fun _ => true) (wb_join (map wb_group cs ++ [[KNotNull FRun]])) (flat_map snd cs) = Some (false, []) /\
+  let val2 := fun f => match f with FWf => 2 | FStatus => 2 | _ => 0 end in
+  sql_cond val2 (fun _ => true) (flat_stmt_cond cs) (flat_map snd cs) = Some (true, []) /\
+  sql_cond val2 (fun _ => true) (wb_join (map wb_group cs ++ [[KNotNull FRun]])) (flat_map snd cs) = Some (false, []).
+Proof. exact unparenthesised_differs. Qed.
+Print Assumptions C18_grouping_matters.
